@@ -192,6 +192,25 @@ static void build_corpus (void) {
     { "mapping:allocate_mapping", "([ 0 : 0 ])", "w = allocate_mapping(sizeof(v) * 2); n = sizeof(v) * 2; for (j = 0; j < n; j++) w[j] = 1; v = w;" },
     { "mapping:restore_variable", "([ 0 : 0 ])", "w = ([]); n = sizeof(v) * 2; for (j = 0; j < n; j++) w[j] = 1; v = restore_variable(save_variable(w));" },
     { "mapping:v*w(compose)", "([ 0 : 0 ])", "w = ([]); n = sizeof(v) * 2; for (j = 0; j < n; j++) w[j] = j; v = w * w;" },
+    /* self-append / self-add where the variable is the ONLY holder of the container (the driver has in-place fast paths for that);
+     * the template stores gv = v after every step, so the other holder is dropped first */
+    { "array:v+=v(sole-holder)", "({ 1, 2 })", "gv = 0; v += v;" },
+    { "array:v=v+v(sole-holder)", "({ 1, 2 })", "gv = 0; v = v + v;" },
+    { "array:v+=({1})(sole-holder)", "allocate(@A - 3)", "gv = 0; v += ({ 1 });" },
+    { "array:v=v+({1})(sole-holder)", "allocate(@A - 3)", "gv = 0; v = v + ({ 1 });" },
+    { "array:global+=global(sole-holder)", "({ 1, 2 })", "gv = 0; if (!i) gw = v; v = 0; gw += gw; v = gw; gw = 0;" },
+    { "array:global=global+global(sole-holder)", "({ 1, 2 })", "gv = 0; if (!i) gw = v; v = 0; gw = gw + gw; v = gw; gw = 0;" },
+    { "array:element+=element(sole-holder)", "({ ({ 1, 2 }) })", "gv = 0; v[0] += v[0];" },
+    { "array:mapping-value+=itself(sole-holder)", "([ 1 : ({ 1, 2 }) ])", "gv = 0; v[1] += v[1];" },
+    { "string:v+=v(sole-holder)", "\"ab\"", "gv = 0; v += v;" },
+    { "string:v=v+v(sole-holder)", "\"ab\"", "gv = 0; v = v + v;" },
+    { "string:v+=\"x\"(sole-holder)", "repeat_string(\"a\", @S - 3)", "gv = 0; v += \"x\";" },
+    { "mapping:v+=v(sole-holder)", "nearfull()", "gv = 0; v += v;" },
+    { "mapping:v+=shifted(v)(sole-holder)", "([ 0 : 0 ])", "gv = 0; w = ([]); n = sizeof(v); foreach (x, y in v) w[x + n] = 1; v += w; w = 0;" },
+    { "mapping:v+=([k:1])(sole-holder)", "nearfull()", "gv = 0; v += ([ sizeof(v) : 1 ]);" },
+    { "mapping:insert-by-index(sole-holder)", "nearfull()", "gv = 0; v[sizeof(v)] = 1;" },
+    { "buffer:v+=v(sole-holder)", "allocate_buffer(2)", "gv = 0; v += v;" },
+    { "buffer:v=v+v(sole-holder)", "allocate_buffer(2)", "gv = 0; v = v + v;" },
     { "buffer:v=v+v", "allocate_buffer(2)", "v = v + v;" },
     { "buffer:v+=v", "allocate_buffer(2)", "v += v;" },
     { "buffer:allocate_buffer", "allocate_buffer(2)", "v = allocate_buffer(sizeof(v) * 2);" },
